@@ -270,4 +270,116 @@ theorem checkC13_nil_iff {cs : MagCaseQ} {d : MagDatasetQ} : checkC13 cs d = [] 
     rw [h]
     rfl
 
+/-- The oracle decides C13 exactly (non-degenerate lattices, tolerances inside the scanned windows). -/
+theorem checkC13_iff {cs : MagCaseQ} {d : MagDatasetQ}
+    (hI : cs.mc.cell.lat.det ≠ 0) (hwI : Window cs.mc.cell.lat ((4 * d.symprec) * (4 * d.symprec)))
+    (hS : d.std.cell.lat.det ≠ 0) (hwS : Window d.std.cell.lat ((4 * d.symprec) * (4 * d.symprec)))
+    (hwE : Window d.std.cell.lat ((1 / 100000000) * (1 / 100000000)))
+    (hP : d.prim.cell.lat.det ≠ 0) (hwP : Window d.prim.cell.lat ((4 * d.symprec) * (4 * d.symprec))) :
+    checkC13 cs d = [] ↔ Spec.C13 cs d :=
+  ⟨checkC13_sound, fun h => checkC13_nil_iff.2 (checkC13core_complete hI hwI hS hwS hwE hP hwP h)⟩
+
+/-! ### Non-vacuity: a concrete case on which all hypotheses hold -/
+
+/-- Two like atoms at ±(1/4,1/4,1/4) in a cubic cell of edge 2 carrying the axial moments `(0,0,1)` and
+`(0,0,-1)` (UNI 6, `P -1'`); the dataset reports `{1, 1̄'}`, the identity transformation, and the input
+cell itself as `std_mag_cell` and `prim_std_mag_cell`. -/
+def exCell : MagCellQ :=
+  ⟨⟨⟨2, 0, 0, 0, 2, 0, 0, 0, 2⟩, #[⟨1/4, 1/4, 1/4⟩, ⟨3/4, 3/4, 3/4⟩], #[1, 1]⟩, #[⟨0, 0, 1⟩, ⟨0, 0, -1⟩]⟩
+def exCase : MagCaseQ := { (default : MagCaseQ) with mc := exCell, collinear := false, axial := true }
+def exData : MagDatasetQ :=
+  { (default : MagDatasetQ) with
+    uni := 6, ops := #[⟨M3.one, Q3.zero, false⟩, ⟨M3.one.neg, ⟨1, 0, -1⟩, true⟩],
+    std := exCell, stdLinear := QM3.one, stdShift := Q3.zero, stdRot := QM3.one,
+    prim := exCell, primLinear := QM3.one, primShift := Q3.zero, mapping := #[0, 1],
+    symprec := 1 / 10000, magSymprec := 1 / 10000 }
+
+theorem exRef : refConvOps 2 = some [⟨M3.one, Z3.zero, false⟩, ⟨M3.one.neg, Z3.zero, false⟩] := by decide +kernel
+theorem exTab : magConvOpsOfUni 6 = some [⟨M3.one, Z3.zero, false⟩, ⟨M3.one.neg, Z3.zero, true⟩] := by decide +kernel
+
+/-- The specification holds of the example, by exhibiting the witnesses. -/
+theorem exSpec : Spec.C13 exCase exData := by
+  refine ⟨by decide +kernel, by decide +kernel, by unfold EntriesClose; decide +kernel,
+    by unfold EntriesClose; decide +kernel, ?_, ?_, by decide +kernel, ?_, ?_, ?_⟩
+  · intro i hi
+    have hlt : i < 2 := hi
+    obtain rfl | rfl : i = 0 ∨ i = 1 := by omega
+    · exact ⟨0, by decide, by decide +kernel, ⟨⟨0, 0, 0⟩, by decide +kernel⟩, by decide +kernel⟩
+    · exact ⟨1, by decide, by decide +kernel, ⟨⟨0, 0, 0⟩, by decide +kernel⟩, by decide +kernel⟩
+  · intro j hj
+    have hlt : j < 2 := hj
+    obtain rfl | rfl : j = 0 ∨ j = 1 := by omega
+    · exact ⟨0, by decide, by decide +kernel, ⟨⟨0, 0, 0⟩, by decide +kernel⟩, by decide +kernel⟩
+    · exact ⟨1, by decide, by decide +kernel, ⟨⟨0, 0, 0⟩, by decide +kernel⟩, by decide +kernel⟩
+  · intro i hi
+    have hlt : i < 2 := hi
+    obtain rfl | rfl : i = 0 ∨ i = 1 := by omega
+    · exact ⟨0, by decide +kernel, by decide, by decide +kernel, ⟨⟨0, 0, 0⟩, by decide +kernel⟩, by decide +kernel⟩
+    · exact ⟨1, by decide +kernel, by decide, by decide +kernel, ⟨⟨0, 0, 0⟩, by decide +kernel⟩, by decide +kernel⟩
+  · intro o ho
+    have ho' : o = ⟨M3.one, Q3.zero, false⟩ ∨ o = ⟨M3.one.neg, ⟨1, 0, -1⟩, true⟩ := by
+      simpa [exData] using ho
+    rcases ho' with rfl | rfl
+    · intro i hi
+      have hlt : i < 2 := hi
+      obtain rfl | rfl : i = 0 ∨ i = 1 := by omega
+      · exact ⟨0, by decide, by decide +kernel, ⟨⟨0, 0, 0⟩, by decide +kernel⟩, by decide +kernel⟩
+      · exact ⟨1, by decide, by decide +kernel, ⟨⟨0, 0, 0⟩, by decide +kernel⟩, by decide +kernel⟩
+    · intro i hi
+      have hlt : i < 2 := hi
+      obtain rfl | rfl : i = 0 ∨ i = 1 := by omega
+      · exact ⟨1, by decide, by decide +kernel, ⟨⟨0, 1, 2⟩, by decide +kernel⟩, by decide +kernel⟩
+      · exact ⟨0, by decide, by decide +kernel, ⟨⟨0, 1, 2⟩, by decide +kernel⟩, by decide +kernel⟩
+  · have h6 : (magTypeOf exData.uni).map (fun e => e.number) = some 2 := by decide +kernel
+    obtain ⟨e, he, hnum⟩ : ∃ e, magTypeOf exData.uni = some e ∧ e.number = 2 := by
+      cases hm : magTypeOf exData.uni with
+      | none => rw [hm] at h6; cases h6
+      | some e => rw [hm] at h6; exact ⟨e, rfl, by simpa using h6⟩
+    refine ⟨e, he, ⟨_, by rw [hnum]; exact exRef, ?_⟩, fun _ => ⟨_, exTab, ?_⟩⟩
+    · intro o ho
+      have ho' : o = ⟨M3.one, Z3.zero, false⟩ ∨ o = ⟨M3.one.neg, Z3.zero, false⟩ := by simpa using ho
+      rcases ho' with rfl | rfl
+      · intro i hi
+        have hlt : i < 2 := hi
+        obtain rfl | rfl : i = 0 ∨ i = 1 := by omega
+        · exact ⟨0, by decide, by decide +kernel, ⟨0, 0, 0⟩, by decide +kernel⟩
+        · exact ⟨1, by decide, by decide +kernel, ⟨0, 0, 0⟩, by decide +kernel⟩
+      · intro i hi
+        have hlt : i < 2 := hi
+        obtain rfl | rfl : i = 0 ∨ i = 1 := by omega
+        · exact ⟨1, by decide, by decide +kernel, ⟨1, 1, 1⟩, by decide +kernel⟩
+        · exact ⟨0, by decide, by decide +kernel, ⟨1, 1, 1⟩, by decide +kernel⟩
+    · intro o ho
+      have ho' : o = ⟨M3.one, Z3.zero, false⟩ ∨ o = ⟨M3.one.neg, Z3.zero, true⟩ := by simpa using ho
+      rcases ho' with rfl | rfl
+      · intro i hi
+        have hlt : i < 2 := hi
+        obtain rfl | rfl : i = 0 ∨ i = 1 := by omega
+        · exact ⟨0, by decide, by decide +kernel, ⟨⟨0, 0, 0⟩, by decide +kernel⟩, by decide +kernel⟩
+        · exact ⟨1, by decide, by decide +kernel, ⟨⟨0, 0, 0⟩, by decide +kernel⟩, by decide +kernel⟩
+      · intro i hi
+        have hlt : i < 2 := hi
+        obtain rfl | rfl : i = 0 ∨ i = 1 := by omega
+        · exact ⟨1, by decide, by decide +kernel, ⟨⟨1, 1, 1⟩, by decide +kernel⟩, by decide +kernel⟩
+        · exact ⟨0, by decide, by decide +kernel, ⟨⟨1, 1, 1⟩, by decide +kernel⟩, by decide +kernel⟩
+
+/-- Non-vacuity of `checkC13core_complete` / `checkC13_iff` / `checkC13_sound`: all hypotheses are
+simultaneously satisfiable and the oracle is then silent.  (The oracle itself cannot be evaluated in
+the kernel because its candidate hint uses `Float`; this is derived, not computed.) -/
+example : checkC13 exCase exData = [] :=
+  (checkC13_iff (by decide +kernel) (by unfold Window; decide +kernel) (by decide +kernel)
+    (by unfold Window; decide +kernel) (by unfold Window; decide +kernel) (by decide +kernel)
+    (by unfold Window; decide +kernel)).2 exSpec
+
+/-- … and a wrong standardized moment is not `Spec.C13`: with the moment of `std_mag_cell` site 0
+replaced by `(0, 0, −3/4)` the clause `input_lands` fails for atom 0 (no site of the cell carries a
+moment within `4·mag_symprec` of `(0,0,1)`). -/
+example : ¬ Spec.C13 exCase { exData with std := { exCell with mom := #[⟨0, 0, -3/4⟩, ⟨0, 0, -1⟩] } } := by
+  intro h
+  obtain ⟨j, hj, _, _, hm⟩ := h.input_lands 0 (by decide)
+  have hj' : j < 2 := hj
+  obtain rfl | rfl : j = 0 ∨ j = 1 := by omega
+  · revert hm; decide +kernel
+  · revert hm; decide +kernel
+
 end Moyo.C13
